@@ -14,7 +14,7 @@ SP = "parser::stream::Parser"
 def run(rep, facts):
     rep.rule("R6.1", "both parsers allocate their buffer as vec![0; config.aligned_bufsize()]")
     rep.rule("R6.2", "request::Parser::parse: StuckOnInput is stored exactly when, after the drive and the compaction, the parser is not done and input_len == input.len(); a not-done return always passes the false edge of that comparison (hence offers a non-empty input buffer)")
-    rep.rule("R6.3", "aligned_bufsize = 24 if buffer_size <= 24, else (buffer_size + 7) & !7 with overflow mapped to usize::MAX: never below the configured size nor the 24-byte minimum, multiple of 8 (structure of the expression, not evaluated)")
+    rep.rule("R6.3", "aligned_bufsize: on every return path the result is >= buffer_size, >= 24 and a multiple of 8 (E8: linear forms, alignment masks as rounding; the documented exception is usize::MAX when buffer_size + 7 overflows)")
 
     rep.rule("R6.4", "ParamsState::drive: the payload is handed to parse_stream with rec_end = false exactly on the true edge of `data.len() < payload_rem` (these two operands, nothing else) and then unsliced; on the false edge it is data.split_at_mut(payload_rem).0 with rec_end = true (so a fragment at the end of a record never waits in the input buffer for the padding)")
     rep.rule("R6.5", "record-end buffering: whenever rec_end is set, parse_stream / parse_buffered move every unparsed payload byte into the heap-side pair buffer and report the whole slice consumed; without rec_end they return the unparsed remainder untouched")
@@ -112,37 +112,36 @@ def run(rep, facts):
             rep.violation("R6.2", P.split("::")[-2] + "::input_buffer", "input_buffer() is not the tail of the buffer after %s" % lenf, b2.loc())
 
     # ---- R6.3 ---------------------------------------------------------------------------------------------
-    b, g, rows = rows_of(facts, "Config::aligned_bufsize")
-    outs = {}
-    for r in rows:
-        if r.end != 'return' or r.ret is None:
-            continue
-        conds = [(ir.peel(e, casts=False), lab) for (e, lab) in nonconst_conds(r)]
-        small = None
-        ovf = None
-        for (e, lab) in conds:
-            if e[0] == 'bin' and e[1] == 'Le' and self_field(e[2], 'buffer_size'):
-                small = (lab[0] == 'otherwise', cv(e[3]))
-            if e[0] == 'discr' and ir.peel(e[1])[0] == 'call' and ir.peel(e[1])[1].endswith("checked_add"):
-                ca = ir.peel(e[1])
-                if self_field(ca[2][0], 'buffer_size') and cv(ca[2][1]) == 7:
-                    ovf = (case_value(lab) == 0)
-        ret = ir.peel(r.ret, casts=False)
-        if small and small[0]:
-            outs['small'] = (small[1], cv(ret))
-        elif small and ovf is True:
-            outs['overflow'] = cv(ret)
-        elif small and ovf is False:
-            lhs = ir.peel(ret[2]) if ret[0] == 'bin' else ('x',)
-            is_sum = lhs[0] == 'field' and lhs[1][0] == 'variant' and lhs[1][2] == 'Some' and ir.peel(lhs[1][1])[0] == 'call' and ir.peel(lhs[1][1])[1].endswith("checked_add")
-            okm = ret[0] == 'bin' and ret[1] == 'BitAnd' and is_sum and \
-                ((ir.peel(ret[3])[0] == 'un' and ir.peel(ret[3])[1] == 'Not' and cv(ir.peel(ret[3])[2]) == 7) or cv(ret[3]) == (2 ** 64 - 8))
-            outs['aligned'] = okm
+    # decided on the values (engine E8), not on the shape of the expression: on every return path of aligned_bufsize
+    import regions as R
+    b = facts.body("Config::aligned_bufsize")
+    it = R.Interp(facts)
+    ends = it.run(b)
     want_min = SPEC["crate_documented"]["min_buffer"]
-    if outs.get('small') == (want_min, want_min) and outs.get('overflow') == 2 ** 64 - 1 and outs.get('aligned') is True:
-        rep.ok("R6.3", "aligned_bufsize", "buffer_size <= 24 => 24; checked_add(7) overflow => usize::MAX; otherwise (buffer_size + 7) & !7", b.loc())
+    bad = []
+    classes = set()
+    for e in ends:
+        bs = e.heap.get("buffer_size")
+        ret = e.ret
+        if not isinstance(bs, R.Lin) or not isinstance(ret, R.Lin):
+            bad.append(("the result is not a linear form of buffer_size", e.trace))
+            continue
+        if not e.ctx.le(bs, ret):
+            bad.append(("the effective size can be smaller than the configured buffer_size", e.trace))
+        if not e.ctx.le(want_min, ret):
+            bad.append(("the effective size can be below the %d-byte protocol minimum" % want_min, e.trace))
+        if it.multiple_of(ret, 8):
+            classes.add("aligned")
+        elif ret.is_const() and int(ret.c) == 2 ** 64 - 1 and e.ctx.ge0(bs + 7 - 2 ** 64):
+            classes.add("overflow")     # documented corner: buffer_size + 7 does not fit into usize
+        else:
+            bad.append(("the effective size %s is not a multiple of 8" % ret, e.trace))
+    if bad:
+        rep.violation("R6.3", "aligned_bufsize", bad[0][0], b.loc(), path=bad[0][1])
+    elif not ends or "aligned" not in classes:
+        rep.undecidable("R6.3", "aligned_bufsize", "no aligned return path interpreted (%d paths)" % len(ends), b.loc())
     else:
-        rep.violation("R6.3", "aligned_bufsize", "alignment rule is %s; expected {small: (24, 24), overflow: usize::MAX, aligned: (x+7) & !7}" % outs, b.loc())
+        rep.ok("R6.3", "aligned_bufsize", "on all %d return paths: result >= buffer_size, >= %d, multiple of 8 (except usize::MAX when buffer_size + 7 overflows)" % (len(ends), want_min), b.loc())
 
 
 def is_len_of(e, pred):
